@@ -262,9 +262,13 @@ func (b *expandBody) expandChild(child hcl.Body, i *iteration, valueMarks cty.Va
 
 func (b *expandBody) JustAttributes() (hcl.Attributes, hcl.Diagnostics) {
 	// blocks aren't allowed in JustAttributes mode and this body can
-	// only produce blocks, so we'll just pass straight through to our
-	// underlying body here.
-	return b.original.JustAttributes()
+	// only produce blocks, so we take the attributes of our underlying
+	// body. As with Content and PartialContent, attributes already consumed
+	// by an earlier PartialContent call must stay hidden, and expressions
+	// must be able to see the iterators (and carry the marks) of enclosing
+	// dynamic blocks.
+	rawAttrs, diags := b.original.JustAttributes()
+	return b.prepareAttributes(rawAttrs), diags
 }
 
 func (b *expandBody) MissingItemRange() hcl.Range {
